@@ -99,6 +99,9 @@ def gen_pair(rng, big=False, with_schema=False, c06_class=False, doubled=False, 
                 cc = pick_cols(ccols)
                 (cidx if kindc == "idx" else cuq).append(
                     {"name": nm, "unique": unique, "cols": cc} if kindc == "idx" else {"name": nm, "cols": cc})
+                if table_opts and kindc == "idx" and where == "conn" and rng.random() < 0.5:
+                    # (C09) a partial index only the database has: the model drops it, the downgrade must bring the predicate back
+                    cidx[-1]["where"] = "%s IS NOT NULL" % cc[0]
             if where in ("both", "meta"):
                 if where == "both" and rng.random() < 0.6 and all(c in [x["name"] for x in mcols] for c in cc):
                     mc, mu = list(cc), unique
@@ -304,7 +307,8 @@ def _build_table(md, t):
             tkw["comment"] = t["comment"]
         tb = sa.Table(t["name"], md, *args, schema=t["schema"], **tkw)
         for i in t["idxs"]:
-            sa.Index(i["name"], *[tb.c[key[c]] for c in i["cols"]], unique=i["unique"])
+            ikw = {"sqlite_where": sa.text(i["where"])} if i.get("where") else {}
+            sa.Index(i["name"], *[tb.c[key[c]] for c in i["cols"]], unique=i["unique"], **ikw)
 
 
 def fk_sig(col, ref, ondelete):
@@ -370,6 +374,11 @@ def table_options(conn, schemas):
             out["%s.%s" % (s or "", tn)] = {k: v for k, v in sorted(insp.get_table_options(tn, schema=s).items())}
             # ... and the primary key as the database reports it: column ORDER included
             out["%s.%s" % (s or "", tn)]["primary_key"] = list(insp.get_pk_constraint(tn, schema=s)["constrained_columns"])
+            # ... and the predicate of every partial index (Inspector: dialect_options["sqlite_where"])
+            part = {ix["name"]: " ".join(str(ix.get("dialect_options", {}).get("sqlite_where")).split())
+                    for ix in insp.get_indexes(tn, schema=s) if ix.get("dialect_options", {}).get("sqlite_where") is not None}
+            if part:
+                out["%s.%s" % (s or "", tn)]["partial_indexes"] = part
     return out
 
 
